@@ -77,6 +77,11 @@ Definition vcase_ok (c : vcase) : bool :=
   && (* on well-formed schemas the total function agrees too *)
      (negb (wf s) || result_same (list_eqb verror_same) (Ok (validate m s [] v)) obs).
 
+(* the hypothesis `wf s` of the validation theorems, decided for the schema of a case: a mismatch is a
+   case whose schema is NOT well-formed (the harness passes true and counts the mismatches) *)
+Definition wf_case_ok (c : vcase) : bool :=
+  let '(m, s, v, obs) := c in wf s.
+
 (* C02 compares verdicts only: the implementation must return "no errors" exactly when the
    model does (an implementation that raises has not accepted). *)
 Definition verdict_case_ok (c : vcase) : bool :=
